@@ -815,8 +815,26 @@ package corerad
 //@   opt safety [C10]
 
 //@ func linkStateWatcher
+//@   requires P1: ctx != nil
 //@   assigns brk
 //@   ensures E1 [C10]: result != nil && isClosure(result, "corerad.linkStateWatcher$1")
+
+// The member goroutine watching the link (C10: a link-state change stops every
+// activity of the task): it fails with ErrLinkChange exactly when a change
+// arrives; with nothing to watch, on cancellation or when the watcher's channel
+// is closed it returns nil.
+//@ func linkStateWatcher$1
+//@   ghost local recvd Bool
+//@   ghost local rok Bool
+//@   opt capture P1
+//@   requires P1 [C10]: ctx != nil
+//@   assigns ghost.done, ghost.now
+//@   opt cancelable [C10]
+//@   at recv watchC(cv, cok): ghost.recvd = true ; ghost.rok = cok
+//@   ensures E1 [C10]: (result != nil) == (ghost.recvd && ghost.rok)
+//@   ensures E2 [C10]: result != nil ==> result == global("system.ErrLinkChange")
+//@   ensures E3 [C10]: watchC == nil ==> !ghost.recvd
+//@   opt safety [C10]
 
 // The errgroup members: each runs its function with the variables advertise
 // declared (context, connection, request channel).
@@ -870,18 +888,22 @@ package corerad
 
 //@ func NewAdvertiser
 //@   assigns new heap(corerad.Advertiser), brk
-//@   ensures E1 [C20,C08]: result != nil && fresh(result) && result.cfg == cfg && result.cctx == cctx && result.dialer == dialer && result.terminate == terminate
+//@   ensures E1 [C20,C08,C10]: result != nil && fresh(result) && result.cfg == cfg && result.cctx == cctx && result.dialer == dialer && result.terminate == terminate && result.watchC == watchC
 //@ func NewMonitor
 //@   assigns new heap(corerad.Monitor), brk
-//@   ensures E1 [C20]: result != nil && fresh(result) && result.iface == iface && result.cctx == cctx && result.dialer == dialer
+//@   ensures E1 [C20,C10]: result != nil && fresh(result) && result.iface == iface && result.cctx == cctx && result.dialer == dialer && result.watchC == watchC
 //@ func (*Server).BuildTasks
 //@   ghost local n Int
 //@   ghost local has (Array Int Bool)
+//@   ghost local subC Int
+//@   ghost local subIdx Int
+//@   at call Subscribe(sw, sname, smask): assert SB1 [C10,C20]: sw == s.w && sname == cfg.Interfaces[rangeindex1 + 1].Name && smask == 2
+//@   at call Subscribe(sw2, sname2, smask2) (sc): ghost.subC = sc ; ghost.subIdx = rangeindex1 + 2
 //@   requires P1: s != nil && s.cctx != nil && s.cctx.ll != nil && s.t != nil
 //@   requires P2: s.w != nil ==> wfA(s.w.m) && lockGet(ghost.lockDepth, fieldaddr(s.w, "mu")) == 0
 //@   assigns everything
-//@   at call NewAdvertiser(ac, aifi, ad, aw, at) (ar): assert A1 [C20,C08]: aifi == cfg.Interfaces[rangeindex1 + 1] && aifi.Advertise && !setHas(ghost.has, rangeindex1 + 1) && ac == s.cctx && boundMethod(at, "corerad.terminate", s.t) ; ghost.has = setAdd(ghost.has, rangeindex1 + 1) ; ghost.n = ghost.n + 1
-//@   at call NewMonitor(mc, mname, md, mw, mv) (mr): assert M1 [C20]: mname == cfg.Interfaces[rangeindex1 + 1].Name && !cfg.Interfaces[rangeindex1 + 1].Advertise && cfg.Interfaces[rangeindex1 + 1].Monitor && !setHas(ghost.has, rangeindex1 + 1) && mc == s.cctx ; ghost.has = setAdd(ghost.has, rangeindex1 + 1) ; ghost.n = ghost.n + 1
+//@   at call NewAdvertiser(ac, aifi, ad, aw, at) (ar): assert A1 [C20,C08]: aifi == cfg.Interfaces[rangeindex1 + 1] && aifi.Advertise && !setHas(ghost.has, rangeindex1 + 1) && ac == s.cctx && boundMethod(at, "corerad.terminate", s.t) ; assert A2 [C10]: s.w != nil ==> ghost.subIdx == rangeindex1 + 2 && aw == ghost.subC ; ghost.has = setAdd(ghost.has, rangeindex1 + 1) ; ghost.n = ghost.n + 1
+//@   at call NewMonitor(mc, mname, md, mw, mv) (mr): assert M1 [C20]: mname == cfg.Interfaces[rangeindex1 + 1].Name && !cfg.Interfaces[rangeindex1 + 1].Advertise && cfg.Interfaces[rangeindex1 + 1].Monitor && !setHas(ghost.has, rangeindex1 + 1) && mc == s.cctx ; assert M2 [C10]: s.w != nil ==> ghost.subIdx == rangeindex1 + 2 && mw == ghost.subC ; ghost.has = setAdd(ghost.has, rangeindex1 + 1) ; ghost.n = ghost.n + 1
 //@   loop 1 invariant L1 [C20]: 0 <= rangeindex1 + 1 && rangeindex1 + 1 <= len(cfg.Interfaces) && len(tasks) == ghost.n && s != nil && s.cctx != nil && s.cctx.ll != nil && s.t != nil && (s.w != nil ==> wfA(s.w.m) && lockGet(ghost.lockDepth, fieldaddr(s.w, "mu")) == 0)
 //@   loop 1 invariant L2 [C20]: forall(i, 0, len(cfg.Interfaces), setHas(ghost.has, i) == (i < rangeindex1 + 1 && (cfg.Interfaces[i].Advertise || cfg.Interfaces[i].Monitor)))
 //@   loop 1 invariant L3 [C20]: forall(k, 0, len(tasks), tasks[k] != nil)
